@@ -151,6 +151,7 @@ def inst(cfg, text, **kw):
 I_EVICT = inst("MC_evict", "2 callers: put w2; put w2; put w3; put w9(too heavy) || upsert weight; delete. MaxWeight 4, mixed estimates, fine grain")
 I_EVICT_COLD = inst("MC_evict_cold", "same programs, incoming key colder than the residents")
 I_SHUT = inst("MC_shut", "put; shutdown; put; get || put; delete. QSize 1, fine grain")
+I_SHUTP = inst("MC_shutp", "put w3; shutdown || put w3; put w2 in a cache of weight 4: shutdown racing a put that needs an eviction, fine grain")
 I_READS = inst("MC_reads", "put; await; get; get_ref; get || get; delete; get. Buffer size 1, consumer running")
 I_TTL = inst("MC_ttl", "put ttl 1; upsert ttl 2; get || upsert remove-ttl; get_ref. Sweeper and clock (horizon 3), 2 shards", timeout=1500)
 I_GEN = inst("MC_gen", "one caller draws 3 operations from an alphabet of 9 (every write variant) over 2 keys; sweeper, clock", timeout=900)
@@ -162,7 +163,7 @@ I_D5 = inst("MC_ttl_D5", "MC_ttl with invariant 'no D5 verdict': must be violate
 MC_BY_PROP = {
     "C01": ([MC_L1, I_EVICT], [I_EVICT_COLD, I_GEN]),
     "C02": ([MC_L1, I_READS], [I_GEN]),
-    "C03": ([I_READS, I_SHUT], [I_TTL, I_D12]),
+    "C03": ([I_READS, I_SHUT, I_SHUTP], [I_TTL, I_D12]),
     "C04": ([MC_L1, I_READS], [I_GEN]),
     "C05": ([MC_L1, I_EVICT], [MC_L1_NOFIX, I_GEN]),
     "C06": ([I_EVICT, I_EVICT_COLD], [I_GEN]),
@@ -171,7 +172,7 @@ MC_BY_PROP = {
     "C09": ([I_READS], [I_TTL, I_GEN]),
     "C10": ([I_SHUT], [I_TTL, I_D12, I_D13, I_D14]),
     "C11": ([MC_L1, I_SHUT], [MC_L1_NOFIX, I_GEN]),
-    "C13": ([I_SHUT], [I_GEN]),
+    "C13": ([I_SHUT, I_SHUTP], [I_GEN]),
     "C15": ([I_READS], [I_GEN]),
     "C16": ([I_READS, I_EVICT], [I_GEN]),
     "C17": ([I_EVICT, I_SHUT], [I_GEN]),
